@@ -18,6 +18,7 @@ Not decided: numeric equality, NaN propagation, the clipping of negative feature
 import ast
 
 from vlib import q
+from vlib.pat import Pat, returned
 from vlib.front import unparse, dotted, const_value, AnchorMissing
 from vlib.shape import Shape, Space, Ix, Q, D, BoolT, StrT, NoneT, SizeOf, UNK, is_unk, Arr, Rec, Tup, B
 from obligations.shape_tables import (model_attrs, M, Tmpl, Clu, Chan, Samp, Loc, Spike, Probe, AMP, AMPWH, UM, KA, F, RATE)
@@ -85,15 +86,28 @@ def run(ctx):
                       '%s: rescaled waveforms have dimension %s, expected amp*ka*F' % (lab, tv.elem))
     # table selection by `use`
     sel = {}
+    usep = [p_ for p_ in gat.params if p_ == 'use'] or gat.params[-1:]
     for ifn in gat.nodes(ast.If):
-        c = q.simple_compare(ifn.test)
-        if c and c[1] == '==' and const_value(c[2]) == 'clusters':
-            for br, nm in ((ifn.body, 'clusters'), (ifn.orelse, 'templates')):
-                sel[nm] = {unparse(a.targets[0]): unparse(a.value) for a in br if isinstance(a, ast.Assign)}
-    okt = sorted(sel.get('clusters', {}).values()) == sorted(['self.sparse_clusters', 'self.spike_clusters', 'self.n_clusters']) and \
-        sorted(sel.get('templates', {}).values()) == sorted(['self.sparse_templates', 'self.spike_templates', 'self.n_templates'])
-    ctx.check(okt, 'C09.U1', gat, 'table selection', "use='clusters' reads the cluster waveforms / assignments / count, otherwise the template ones",
-              'the waveform table, assignment vector and id count are not selected consistently by `use` (%s)' % sel)
+        for which, other in (('clusters', 'templates'), ('templates', 'clusters')):
+            if Pat().m("%s == '%s'" % (usep[0], which), ifn.test):
+                for br, nm in ((ifn.body, which), (ifn.orelse, other)):
+                    got = {unparse(a.targets[0]): unparse(a.value) for a in br if isinstance(a, ast.Assign)}
+                    if got:
+                        sel.setdefault(nm, {}).update(got)
+            elif Pat().m("%s != '%s'" % (usep[0], which), ifn.test):
+                for br, nm in ((ifn.orelse, which), (ifn.body, other)):
+                    got = {unparse(a.targets[0]): unparse(a.value) for a in br if isinstance(a, ast.Assign)}
+                    if got:
+                        sel.setdefault(nm, {}).update(got)
+    want = {'clusters': ['self.n_clusters', 'self.sparse_clusters', 'self.spike_clusters'], 'templates': ['self.n_templates', 'self.sparse_templates', 'self.spike_templates']}
+    okt = all(sorted(sel.get(k, {}).values()) == v for k, v in want.items())
+    mixed = any(any(('clusters' if k == 'templates' else 'templates') in x for x in sel.get(k, {}).values()) for k in want)
+    if okt:
+        ctx.holds('C09.U1', gat, "use='clusters' reads the cluster waveforms / assignments / count, otherwise the template ones", 'table selection')
+    elif mixed:
+        ctx.violated('C09.U1', gat, 'table selection', 'the waveform table, assignment vector and id count are not selected consistently by `use` (%s)' % sel)
+    else:
+        ctx.undecided('C09.U1', gat, 'selection of the tables by `use` not recognised (%s)' % sel)
     # ---------------------------------------------------------------- U2
     am = meth('_amplitudes')
     for tab, W in (('spike_templates', Tmpl), ('spike_clusters', Clu)):
@@ -108,9 +122,16 @@ def run(ctx):
             ctx.undecided('C09.U2', am, '_amplitudes(%s) -> %s' % (tab, res))
     for pname, tab in (('templates_amplitudes', 'self.spike_templates'), ('clusters_amplitudes', 'self.spike_clusters')):
         p = repo.lookup_prop(cls, pname)
-        r = [x for x in p['get'].returns() if x.value is not None] if p and 'get' in p else []
-        ctx.check(bool(r) and unparse(r[-1].value) == 'self._amplitudes(%s)' % tab, 'C09.U2', p['get'] if p else cls, pname, '%s averages over %s' % (pname, tab),
-                  '%s does not average over %s' % (pname, tab))
+        rv = [x for _, x in returned(p['get'])] if p and 'get' in p else []
+        other = 'self.spike_clusters' if tab == 'self.spike_templates' else 'self.spike_templates'
+        g = bool(rv) and Pat().m('self._amplitudes(%s)' % tab, rv[-1])
+        b_ = bool(rv) and not g and (Pat().m('self._amplitudes(%s)' % other, rv[-1]) or Pat().m('self._amplitudes(ANY)', rv[-1]))
+        if g:
+            ctx.holds('C09.U2', p['get'], '%s averages over %s' % (pname, tab), rv[-1])
+        elif b_:
+            ctx.violated('C09.U2', p['get'], rv[-1], '%s averages over `%s`, not over %s' % (pname, unparse(rv[-1]), tab))
+        else:
+            ctx.undecided('C09.U2', p['get'] if p else cls, '%s: averaged table not recognised' % pname)
     ch = meth('_channels')
     for tab, W in (('sparse_templates', Tmpl), ('sparse_clusters', Clu)):
         S = Shape(repo, selfattrs=model_attrs(), inline_depth=2)
